@@ -191,7 +191,19 @@ def run_history(method, kname, dim, two, ops, periodic=False):
             tg = make_targets(dim, vt, periodic)
             nt_ = len(tg[0])
             fac = [f for f in (2, 3, 5) if nt_ % f == 0 and nt_ // f >= 2]
-            if vt % 2 == 1 and fac:
+            if vt % 2 == 0:
+                # coordinates given as integer arrays (np.mgrid[0:3, 0:2] is
+                # what a user types for a coarse grid)
+                # (periodic box [-0.25, 1.75): targets stay inside it)
+                k = {1: 3, 2: 2, 3: 2}[dim] if not periodic else 2
+                rng = [np.arange(k) if a < dim else np.arange(1)
+                       for a in range(3)]
+                X, Y, Z = np.meshgrid(*rng, indexing='ij')
+                ti = [X.ravel().astype(np.int64), Y.ravel().astype(np.int64),
+                      Z.ravel().astype(np.int64)]
+                ip.set_interpolation_points(x=ti[0], y=ti[1], z=ti[2])
+                tg = tuple(t.astype(float) for t in ti)
+            elif vt % 2 == 1 and fac:
                 # the same points as Fortran-ordered (not C-contiguous) 2-D
                 # arrays: results are reported in the logical order
                 sh = (fac[0], nt_ // fac[0])
@@ -226,6 +238,10 @@ def run_history(method, kname, dim, two, ops, periodic=False):
         # source h when the target array was last created) is an input of
         # the defining sums, not part of the statement: read it
         th = float(ip.pa.get('h', only_real_particles=False)[0])
+        if not (th > 0.0 and np.isfinite(th)):
+            # the defining sums need a kernel, a kernel needs h > 0
+            return [('target-h-not-positive', dict(step=step, op=op,
+                                                   h=th))], nev
         for fieldname in ('f', 'const', 'linear'):
             if fieldname == 'f':
                 field = lambda pa: pa.get('f', only_real_particles=False)\
@@ -328,8 +344,9 @@ def _job(args):
                 key = 'interp:%s' % kind
                 if key not in out:
                     out[key] = ('%s %r [method=%s kernel=%s dim=%d two=%s '
-                                'ops=%r]' % (kind, det, method, kname, dim,
-                                             two, ops),
+                                'periodic=%s ops=%r]' % (kind, det, method,
+                                                         kname, dim, two,
+                                                         periodic, ops),
                                 dict(method=method, kernel=kname, dim=dim,
                                      two=two, ops=list(ops),
                                      periodic=periodic))
